@@ -12,7 +12,7 @@ import threading
 import time
 
 from lib import vlib, e2e_env
-from e2e import engine, gen, slots, plan as planmod
+from e2e import render, engine, gen, slots, plan as planmod
 
 N_APPS = {"quick": 6, "thorough": 48}
 K_PROCS = {"quick": 3, "thorough": 8}
@@ -172,9 +172,52 @@ class Script:
                     self.viol("check_verdict_differs_from_normal_run", {"check_said_outdated": outdated, "normal_run_changed_files": changed}, said=outdated)
                 if r["rc"] == 0:
                     self.check_step("check_after_regenerate", expect_outdated=False)
+                    # the bytes depend on the blueprint and the sources only, not on what was in the output directory before
+                    over = shas(snap(d))
+                    self.reset_outputs()
+                    r2 = self.pavexc("pristine_run_of_changed_blueprint")
+                    if r2["rc"] == 0:
+                        fresh = shas(snap(d))
+                        for f in FILES:
+                            if over[f] != fresh[f]:
+                                self.viol("output_depends_on_previous_output", {"file": f, "history": "blueprint_change"}, file=f, history="blueprint_change")
+        self.workspace_member_history()
         if self.case.get("ext"):
             self.feature_history()
         return "ran"
+
+    def workspace_member_history(self):
+        """The workspace manifest is an output too: when the generated crate is not among the workspace members, a normal run
+        adds it, so `--check` must report an outdated project (exit 1) without touching anything."""
+        d = self.d
+        root = os.path.join(d, "Cargo.toml")
+        with open(root) as f:
+            orig = f.read()
+        edited = re.sub(r'"sdk",\s*', "", orig, count=1)
+        if edited == orig:
+            return
+        try:
+            with open(root, "w") as f:
+                f.write(edited)
+            before = tree_snapshot(d)
+            r = self.pavexc("check_without_workspace_member", check=True)
+            after = tree_snapshot(d)
+            touched = sorted(k for k in set(before) | set(after) if before.get(k) != after.get(k))
+            if touched:
+                self.viol("check_modified_files", {"step": "check_without_workspace_member", "touched": touched[:10]}, step="check_without_workspace_member")
+            if r["rc"] not in (0, 1):
+                self.steps.append({"step": "check_without_workspace_member_abnormal", "rc": r["rc"]})
+                return
+            said_outdated = r["rc"] != 0
+            r2 = self.pavexc("normal_run_without_workspace_member")
+            after2 = tree_snapshot(d)
+            changed = sorted(k for k in set(after) | set(after2) if after.get(k) != after2.get(k) and (k == "Cargo.toml" or k.startswith("sdk/")))
+            if r2["rc"] == 0 and said_outdated != bool(changed):
+                self.viol("check_verdict_differs_from_normal_run", {"step": "without_workspace_member", "check_said_outdated": said_outdated,
+                                                                   "normal_run_changed": changed}, said=said_outdated, step="without_workspace_member")
+        finally:
+            with open(root, "w") as f:
+                f.write(orig)
 
     def feature_history(self):
         """Cache history over cargo features: a path dependency outside the workspace (its docs are cached like a third-party
@@ -192,10 +235,10 @@ class Script:
         lib = os.path.join(d, "app", "src", "lib.rs")
         with open(lib) as f:
             src = f.read()
-        add = ('\n#[pavex::get(path = "/extdep-probe", id = "H_EXT")]\npub fn h_ext(c: &extdep::ExtClient) -> Response {\n'
+        add = ('\n#[pavex::get(path = "/extdep-probe", id = "H_EXT")]\npub fn h_ext(c: &extdep::ExtClient, _x: &extdep::ExtExtra) -> Response {\n'
                '    text_response(200, format!("EXT={}", c.with_cfg))\n}\n')
         head, sep, tail = src.rpartition("    bp\n}")
-        src2 = head + "    bp.constructor(extdep::EXT_CFG);\n    bp.constructor(extdep::EXT_CLIENT);\n    bp.route(H_EXT);\n" + sep + tail + add
+        src2 = head + "    bp.constructor(extdep::EXT_CFG);\n    bp.constructor(extdep::EXT_CLIENT);\n    bp.constructor(extdep::EXT_EXTRA);\n    bp.route(H_EXT);\n" + sep + tail + add
         with open(lib, "w") as f:
             f.write(src2)
         seen = {}
@@ -207,7 +250,7 @@ class Script:
         try:
             for step, feats in (("features_off_1", []), ("features_on_1", ["extra"]), ("features_on_reference_pristine_cache", ["extra"]),
                                 ("features_off_2", []), ("features_on_2", ["extra"])):
-                toml = e2e_env.app_toml() + 'extdep = { path = "../extdep", features = [%s] }\n' % ", ".join('"%s"' % x for x in feats)
+                toml = e2e_env.app_toml((render._dep(self.case["spec"]) or {}).get("alias")) + 'extdep = { path = "../extdep", features = [%s] }\n' % ", ".join('"%s"' % x for x in feats)
                 with open(os.path.join(d, "app", "Cargo.toml"), "w") as f:
                     f.write(toml)
                 ok, err = slots.build_app(self.slot)
@@ -229,13 +272,67 @@ class Script:
                     seen[key] = sk
             if seen.get("on") and seen.get("off") and seen["on"]["sdk/src/lib.rs"] == seen["off"]["sdk/src/lib.rs"]:
                 self.steps.append({"step": "feature_history_indistinguishable"})
+            self.included_file_history(ext, pristine)
+            # a generation over outputs that name another set of crates: the application without `extdep` again
+            with open(os.path.join(d, "app", "Cargo.toml"), "w") as f:
+                f.write(e2e_env.app_toml((render._dep(self.case["spec"]) or {}).get("alias")))
+            with open(lib, "w") as f:
+                f.write(src)
+            ok, err = slots.build_app(self.slot)
+            if ok:
+                r = self.pavexc("original_over_extdep_outputs")
+                over = shas(snap(d))
+                self.reset_outputs()
+                r2 = self.pavexc("original_pristine")
+                fresh = shas(snap(d))
+                if r["rc"] == 0 and r2["rc"] == 0:
+                    for f in FILES:
+                        if over[f] != fresh[f]:
+                            self.viol("output_depends_on_previous_output", {"file": f, "history": "other_crate_set"}, file=f, history="other_crate_set")
         finally:
             with open(os.path.join(d, "app", "Cargo.toml"), "w") as f:
-                f.write(e2e_env.app_toml())
+                f.write(e2e_env.app_toml((render._dep(self.case["spec"]) or {}).get("alias")))
             shutil.rmtree(ext, ignore_errors=True)
             shutil.rmtree(pristine, ignore_errors=True)
             # the generated manifest depends on `extdep`: leave a neutral SDK behind for whoever uses the slot next
             self.reset_outputs()
+
+    def included_file_history(self, ext, pristine):
+        """Part of the dependency's API lives in a file that is not a `.rs` file (`include!("api.in")`): editing only that file
+        must invalidate what the documentation cache holds for the crate. Reference: the same sources with a cache that has
+        never seen the crate."""
+        d = self.d
+        inc = os.path.join(ext, "src", "api.in")
+        if not os.path.exists(inc):
+            return
+        with open(inc) as f:
+            txt = f.read()
+        if "pub fn ext_extra()" not in txt:
+            return
+        ok, err = slots.build_app(self.slot)
+        if not ok:
+            return
+        self.reset_outputs()
+        r = self.pavexc("included_file_before_edit", timeout=1800)
+        if r["rc"] != 0:
+            return
+        with open(inc, "w") as f:
+            f.write(txt.replace("pub fn ext_extra()", "pub async fn ext_extra()"))
+        ok, err = slots.build_app(self.slot)
+        if not ok:
+            self.steps.append({"step": "included_file_edit_generator_bug", "err": err[-300:]})
+            return
+        self.reset_outputs()
+        r = self.pavexc("included_file_after_edit_warm_cache", timeout=1800)
+        warm = shas(snap(d))
+        self.reset_outputs()
+        r2 = self.pavexc("included_file_after_edit_pristine_cache", timeout=1800, home=pristine)
+        cold = shas(snap(d))
+        if r["rc"] == 0 and r2["rc"] == 0:
+            for f in ("sdk/Cargo.toml", "sdk/src/lib.rs", "diag.dot"):
+                if warm[f] != cold[f]:
+                    self.viol("cache_dependent_output", {"file": f, "history": "included_non_rs_file_edited"}, file=f, history="included_file")
+            self.steps.append({"step": "included_file_history", "await_in_output": ".await" in open(os.path.join(d, "sdk", "src", "lib.rs")).read()})
 
     def reset_outputs(self):
         """Put the SDK back to an empty placeholder crate (cargo metadata needs the workspace member to exist) and drop the
@@ -330,6 +427,10 @@ def run(ctx):
     n_slots = e2e_env.N_SLOTS
     slots.ensure_slots(n_slots)
     e2e_env.build_pavexc()
+    # the primitive every generated file goes through ("write only if the content differs"), driven in-process over
+    # old-content/new-content histories of all sizes around the block sizes of a streaming checksum
+    bindir = vlib.build_harness("persist")
+    persist = vlib.run_harness_bin(ctx, bindir, "persist", ["--seed", ctx.seed, "--tier", ctx.tier], timeout=900)
     cases = []
     i = 0
     while len(cases) < N_APPS[ctx.tier]:
@@ -396,6 +497,7 @@ def run(ctx):
             samples.append({"case": c["id"], "n_types": len(spec["types"]), "n_routes": len(spec["handlers"]), "steps": s.steps})
     cov = {"evaluations": evals, "distinct_nontrivial": len(distinct), "samples": samples, "case_statuses": statuses, "pavexc_processes_by_step": step_kinds,
            "processes_per_app_fresh": K_PROCS[ctx.tier],
+           "persist_if_changed_histories": {k: v for k, v in (persist[0] if persist else {}).items() if k in ("evaluations", "unchanged_histories", "same_size_changes", "violations_total")},
            "rule": "cases = accepted generated applications; per application a scripted history of pavexc processes (fresh outputs x K processes, workspace-package cache on/off, "
                    "cold isolated cache, cache of another project, --check after no change / lib.rs edit / manifest edit / blueprint change); evaluations = pavexc processes observed; "
                    "distinct = shape hash; non-trivial = >= 2 singletons and >= 2 routes (collections whose iteration order could leak)"}
